@@ -163,7 +163,13 @@ def post_inverse(ctx, call):
 
 def post_pow(ctx, call):
     t, power = call.args[0], call.args[1]
-    if call.exc is not None or not isinstance(power, (int, np.integer)) or not R.finite(t.array) or abs(power) > 12:
+    if not isinstance(power, (int, np.integer)) or not R.finite(t.array) or abs(power) > 64:
+        return
+    if call.exc is not None:
+        Mi, cond = xform._inv(np.asarray(t.array).reshape((-1,) + t.shape[-2:])[0])
+        if Mi is not None and cond < 1e3:
+            ctx.judge("pow", False, [t, int(power)], what=f"t**{power} raised {type(call.exc).__name__}: {str(call.exc)[:100]}", op="__pow__", feat={"power": int(power), "exc": type(call.exc).__name__},
+                      nontrivial=True)
         return
     res = call.result
     from geometer.transformation import TransformationTensor
@@ -310,6 +316,18 @@ def g_powers(ctx, rng, i):
         except Exception as e:
             ctx.judge("pow", False, [m, k], what=f"t**{k} raised {type(e).__name__}: {e}", op="__pow__")
     t.inverse()
+    # larger exponents on maps whose powers stay moderate: rotations, translations, unimodular shears
+    big = [g.rotation(float(rng.uniform(-1, 1))) if dim == 2 else g.rotation(float(rng.uniform(-1, 1)), axis=g.Point(*gen.nonzero_vec(rng, 3, 2).tolist())),
+           g.translation(*gen.coords(rng, (dim,), 3, "int").tolist())]
+    sh = np.eye(n, dtype=int)
+    sh[0, 1] = int(rng.integers(1, 3))
+    big.append(g.Transformation(sh))
+    for tb_ in big:
+        for k in (27, 30, -30):
+            try:
+                tb_ ** k
+            except Exception:
+                pass  # judged by the monitor
     ms = np.stack([_rand_matrix(rng, n, (i // 2 + j) % 4) for j in range(4)]).astype(float)
     for shape in ((4,), (2, 2)):
         tc = g.TransformationCollection(ms.reshape(shape + (n, n)))
